@@ -12,6 +12,12 @@ mod scan;
 mod cc14;
 #[path = "../../common/nrpn.rs"]
 mod nrpn;
+#[path = "../../common/polling.rs"]
+mod polling;
+#[path = "../../common/iso.rs"]
+mod iso;
+#[path = "../../common/misc.rs"]
+mod misc;
 
 use xs::{Check, Tier};
 
@@ -54,6 +60,7 @@ fn main() {
         "C03" => {
             let chk = Check::new("C03", PART, tier, "exploration");
             msgs::run_c03_sweep(&chk);
+            misc::run_c03_scanners(&chk, tier);
             chk.finish()
         }
         "C04" => {
@@ -94,6 +101,31 @@ fn main() {
         "C11" => {
             let chk = Check::new("C11", PART, tier, "model_checking");
             nrpn::run_c11(&chk, tier);
+            chk.finish()
+        }
+        "C13" => {
+            let chk = Check::new("C13", PART, tier, "model_checking");
+            polling::run_c13(&chk, tier);
+            chk.finish()
+        }
+        "C14" => {
+            let chk = Check::new("C14", PART, tier, "model_checking");
+            polling::run_c14(&chk, tier);
+            chk.finish()
+        }
+        "C15" => {
+            let chk = Check::new("C15", PART, tier, "model_checking");
+            iso::run_c15(&chk, tier);
+            chk.finish()
+        }
+        "C16" => {
+            let chk = Check::new("C16", PART, tier, "model_checking");
+            misc::run_c16(&chk, tier);
+            chk.finish()
+        }
+        "C17" => {
+            let chk = Check::new("C17", PART, tier, "model_checking");
+            misc::run_c17(&chk, tier);
             chk.finish()
         }
         _ => {
